@@ -163,6 +163,9 @@ def run(tier, seed):
                 if rng.below(3) == 0:
                     fr = bytes([fr[0] ^ (0x80 if exp == "wrath" and dr == "server" and rng.below(2) else 0)]) + fr[1:]
                 frames.append((exp, dr, fr + rng.bytes(rng.below(3)), "random-frame", None))
+    # corpus of past alarms: a 6-byte SMSG_MOTD body whose count makes the blocking reader itself abort (C03's known finding) -- must be
+    # attributed to the blocking reader, not reported as a disagreement
+    frames.insert(0, ("wrath", "server", bytes.fromhex("00083d03c07776b16ce97e30"), "random-frame", None))
     reqs, meta = [], []
     seen = set()
     for lib, dr, fr, label, key in frames:
@@ -188,6 +191,16 @@ def run(tier, seed):
     mo = d.ask_many(mreq)
     d.close()
     model = dict(zip(midx, mo))
+    # a process abort (failed allocation) cannot be attributed to a variant: ask the BLOCKING reader alone for the same bytes; when it
+    # aborts too, the input is one of C03's unbounded-allocation inputs (all variants share that reader code) and not a disagreement
+    ab_idx = [i for i, h in enumerate(ho) if h.startswith("abort signal")]
+    ab_req = []
+    for i in ab_idx:
+        lib, dr, fr, label, key, kind, s = meta[i]
+        flat = bytes.fromhex(s.replace("p", "").replace(",", "")) if s != "-" else b""
+        ab_req.append(f"dec {lib} {dr} {flat.hex() or '-'}")
+    ab_out = run_parallel(har, ab_req, jobs=8, limit_as=4 << 30, timeout=600) if ab_req else []
+    blocking_aborts = {i for i, o in zip(ab_idx, ab_out) if o.startswith("abort signal")}
     kinds, classes = collections.Counter(), collections.Counter()
     model_cmp = collections.Counter()
     witnesses = {}
@@ -196,6 +209,9 @@ def run(tier, seed):
         cls = h.split(":")[0] if h.startswith("agree") else h.split()[0]
         classes[cls] += 1
         rel = os.path.relpath
+        if i in blocking_aborts:
+            classes["blocking-reader-aborts (C03)"] += 1
+            continue
         if not h.startswith("agree"):
             k = "differ" if h.startswith("differ") else "abort"
             witnesses.setdefault(label.split("#")[0], rq)
